@@ -102,4 +102,36 @@ example :
     (vacuumRows F 5 ([(1, d 4), (2, d 5)] : Table Nat Nat)).map (·.1) = [2] := by
   decide
 
+/-! ### where C10 and C02 pull in opposite directions (finding F78)
+
+A DELETE is sticky: an UPDATE with a later write time that meets a deleted row leaves it absent,
+but its column write stays in the marker, hidden, and a later INSERT loses that column against it
+(C02: "the statement with the greatest write time among the statements since that INSERT").  A
+vacuum whose cutoff lies between the delete and the hidden write purges the marker (C10: "rows
+deleted before the cutoff no longer occupy the table") and the hidden write with it.  The two
+theorems below run the same four statements on the model, with and without the vacuum. -/
+
+private def ins (t : Table Nat String) (w : Int) (a b : String) : Table Nat String :=
+  match insertRow t w 1 [("a", a), ("b", b)] with
+  | .ok t' => t'
+  | .error _ => t
+
+private def hist (vac : Bool) : Table Nat String :=
+  let t := ins [] 1 "a1" "b1"
+  let t := updateRow t 10 1 [("b", "b10")]
+  let t := deleteRow t 2 1
+  let t := if vac then vacuumRows F 3 t else t
+  ins t 4 "a4" "b4"
+
+private def colB (t : Table Nat String) : Option String :=
+  (visibleRow t 1).bind fun cols => (lookup "b" cols).map (·.v)
+
+/-- without the vacuum the re-inserted row keeps the later write to `b` -/
+theorem without_vacuum_later_write_wins : colB (hist false) = some "b10" := by decide
+
+/-- with a vacuum at 3 — after the delete (2), before the hidden write (10) — the same statements
+    give another table: C02 asks for `b10`, C10 for the marker to be gone at cutoff 3 -/
+theorem vacuum_between_delete_and_hidden_write_changes_resolution :
+    colB (hist true) = some "b4" := by decide
+
 end S3db.Props.C10
